@@ -15,7 +15,13 @@ type regExpParser struct {
 	offset    int
 	chr       rune
 	invalid   bool
+	depth     int // Of groups, see maxRegExpDepth.
 }
+
+// maxRegExpDepth is the deepest nesting of groups that is scanned: regexp/syntax rejects an
+// expression that nests deeper than 1000 anyway ("expression nests too deeply"), and scanGroup
+// recurses with every "(", of which a pattern can have millions.
+const maxRegExpDepth = 1000
 
 // TransformRegExp transforms a JavaScript pattern into  a Go "regexp" pattern.
 //
@@ -83,6 +89,18 @@ func (p *regExpParser) scan() {
 
 // (...)
 func (p *regExpParser) scanGroup() {
+	p.depth++
+	defer func() {
+		p.depth--
+	}()
+	if p.depth > maxRegExpDepth {
+		p.error(-1, "expression nests too deeply")
+		p.invalid = true
+		p.offset = p.length // Nothing is scanned after this.
+		p.read()
+		return
+	}
+
 	str := p.str[p.chrOffset:]
 	if len(str) > 1 { // A possibility of (?= or (?!
 		if str[0] == '?' {
